@@ -8,10 +8,12 @@ import traceback
 from decimal import Decimal
 from common import *
 import c16_extract
+import c16_fmt
+import c16_full
 
 chk = Check('C16')
 chk.extra['rule'] = ('random systems (1-5 molecules, arbitrary integer node keys, atom ids that reorder the nodes, '
-                     'None/absent attributes, names of 0-6 characters, residue numbers across 9999/-999, '
+                     'None/absent attributes, names of 0-6 characters (a quarter of the systems with points in the names, also on the first GRO line), residue numbers across 9999/-999, '
                      'coordinates on the 0.001 grid incl. negative and 8-column overflow, random bond graphs incl. '
                      'degree > 4) plus systems of 9998-10002 (thorough: 99998-100002) atoms are written by the real '
                      'write_pdb_string / write_gro; the text is compared byte for byte with the Lean model, read '
@@ -26,14 +28,19 @@ gen, extract_err = None, None
 try:
     LAY = c16_extract.extract(REPO)
     c16_extract.check_runtime(LAY)
-    gen = {'C16Layout.lean': c16_extract.render_lean(LAY)}
+    gen = {'C16Layout.lean': c16_extract.render_lean(LAY), 'C16LayoutX.lean': c16_extract.render_lean_x(LAY)}
 except Exception as exc:  # the tie is broken: keep the committed layout, search for a failing input
     extract_err = '%s: %s' % (type(exc).__name__, exc)
 chk.lean(['VermouthProps.C16', 'VermouthProps.C16Tables', 'VermouthProps.C16File', 'VermouthProps.C16Gro',
-          'VermouthProps.C16Conect'],
+          'VermouthProps.C16Conect', 'VermouthProps.C16Format', 'VermouthProps.C16Total', 'VermouthProps.C16Merge',
+          'VermouthProps.C16Model', 'VermouthProps.C16Conserv', 'VermouthProps.C16Full', 'VermouthProps.C16GroX'],
          'driver_c16', generated=gen)
+chk.extra['phase_s'] = {'lean_done': round(chk.elapsed(), 1)}
 if extract_err:
     chk.broken.append(('extract:C16Layout', extract_err))
+chk.extra['anchor_coverage_note'] = ('the real writers and readers run in forked workers; their executed lines are sent back '
+                                     '(Check.worker_lines / merge_worker_lines) and merged, so anchor_line_coverage counts '
+                                     'worker lines too (the "in-process" wording of its tool field predates that)')
 chk.trusted.append('harness/c16_extract.py (AST translator of format strings / column tables, cross-checked against '
                    'the format strings seen at run time), harness/c16.py oracle; CPython float formatting on the '
                    '0.001 grid')
@@ -146,6 +153,14 @@ def pdb_letterless(case):
             if not want_str(a['element'], 2) and not has_letter(want_str(a['atomname'], 4)):
                 return True
     return False
+
+
+def gro_first_points(case):
+    """points in the name columns of the first atom line of the GRO file (names as they fit their columns)"""
+    for mol in case['mols']:
+        for a in write_order(mol):
+            return want_str(a['resname'], 5).count('.') + want_str(a['atomname'], 5, 'right').count('.')
+    return 0
 
 
 def gro_letterless(case):
@@ -269,7 +284,7 @@ def canon_pdb(mols):
                           int(round(n['temp_factor'] * 100)), n['element']])
         out.append(atoms)
         bonds.extend(sorted({(mi, min(rank[u], rank[v]), max(rank[u], rank[v])) for u, v in m.edges}))
-    return 'ok ' + enc(out) + ' ' + enc([list(b) for b in bonds])
+    return 'ok ' + enc(out) + ' ' + enc([list(b) for b in bonds]), 'ok ' + enc(out)
 
 
 def canon_gro(mol):
@@ -285,13 +300,14 @@ def canon_gro(mol):
 # generator
 # ----------------------------------------------------------------------------
 ALPHA = LETTERS + '0123456789' * 3 + "'*+-_"
+ALPHAD = ALPHA + '.' * 12        # names with points: 'C1.A', 'ZN2.'
 HOSTILE = ALPHA + '#. '
 
 
 def rand_name(rng, lo, hi, alphabet=ALPHA, need_letter=False):
     n = rng.randint(lo, hi)
     s = ''.join(rng.choice(alphabet) for _ in range(n))
-    if n >= 3 and alphabet is ALPHA and rng.random() < 0.05:
+    if n >= 3 and (alphabet is ALPHA or alphabet is ALPHAD) and rng.random() < 0.05:
         s = s[0] + ' ' + s[2:]   # internal blank
     if need_letter and n:
         # a letter that survives both the keep-left (PDB, 4) and the keep-right (GRO, 5) truncation
@@ -337,7 +353,7 @@ def rand_mol(rng, natoms, style):
             aid = rng.choice([None, rng.randint(1, max(2, natoms // 2))])
         opt = (lambda v: None if (style['nones'] and rng.random() < 0.15) else v)
         hostile = style['hostile']
-        al = HOSTILE if hostile else ALPHA
+        al = HOSTILE if hostile else (ALPHAD if style.get('dots') else ALPHA)
         a = atom(key, aid,
                  atomname=opt(rand_name(rng, 0 if hostile or style['letterless'] else 1, 6, al,
                                         need_letter=not (hostile or style['letterless']))),
@@ -389,9 +405,15 @@ def rand_case(rng, kind='plain'):
     style = {'scatter_keys': rng.random() < 0.5,
              'idmode': rng.choice(['none', 'order', 'shuffled', 'partial']),
              'nones': rng.random() < 0.4, 'altloc': rng.random() < 0.15, 'density': rng.choice([0, 0.5, 1.0, 1.0]),
-             'hub': rng.random() < 0.4, 'hostile': kind == 'hostile', 'letterless': kind == 'letterless'}
+             'hub': rng.random() < 0.4, 'hostile': kind == 'hostile', 'letterless': kind == 'letterless',
+             'dots': kind == 'plain' and rng.random() < 0.25}
     nmol = rng.choice([1, 1, 2, 3, 5])
     mols = [rand_mol(rng, rng.choice([1, 1, 2, 3, 5, 8, 13]), style) for _ in range(nmol)]
+    if style['dots'] and mols[0]['atoms'] and rng.random() < 0.3:
+        # points in the names of the atom that is written FIRST: one, two, or the critical three
+        first = write_order(mols[0])[0]
+        first['resname'], first['atomname'] = rng.choice([('ZN2.', 'C1.A'), ('A.B.', 'C.'), ('AL.', 'C..A'), ('ALA', 'C.1'),
+                                                          ('A.B', 'C'), ('...', 'CA'), ('R', 'C...'), ('A.B.C.D', 'XC1.A')])
     return {'mols': mols, 'conect': rng.random() < 0.85, 'kind': kind}
 
 
@@ -507,7 +529,7 @@ def run_pdb(cid, case):
     mols, exc = None, None
     try:
         mols = read_pdb(path, exclude=(), ignh=False)
-        impl_r = canon_pdb(mols)
+        impl_r, impl_m = canon_pdb(mols)
     except Exception as e:
         exc = e
         impl_r = exc_name(e)
@@ -539,6 +561,10 @@ def run_pdb(cid, case):
                         False))
         return
     records.append((cid + '-pdbread', rline, impl_r, errs if use or finding else [], nontriv, finding, use))
+    # the closed form of the totality theorems (pdb_file_overflow_local: truncAtomOf) against what read_pdb returned
+    if kind not in ('big', 'huge'):     # (nothing overflows there; saves re-sending the large systems)
+        tline = line('pdbtrunc', enc_system(case))
+        records.append((cid + '-pdbtrunc', tline, impl_m if exc is None else impl_r, [], nontriv, None, True))
 
 
 def run_gro(cid, case0, precision=None):
@@ -583,10 +609,16 @@ def run_gro(cid, case0, precision=None):
         else:
             use = False
         cnt('gro_letterless_name')
+    if kind != 'hostile' and any('.' in (a['atomname'] or '') + (a['resname'] or '') for m in case['mols'] for a in m['atoms']):
+        cnt('gro_points_in_names')
+        if gro_first_points(case):
+            cnt('gro_points_in_first_line_names=%d' % min(gro_first_points(case), 4))
     cnt('gro_read_' + impl_r.split()[0] + ('' if exc is None else '_' + impl_r.split()[1]))
     records.append((cid + '-growrite', wline, impl_w, [], nontriv, None, True))
     rline = line('groread', [], False, flines)
     records.append((cid + '-groread', rline, impl_r, errs if use or finding else [], nontriv, finding, use))
+    if precision is None and kind not in ('big', 'huge'):
+        records.append((cid + '-grotrunc', line('grotrunc', enc_system(case)), impl_r, [], nontriv, None, True))
 
 
 def run_history(cid, case):
@@ -649,18 +681,53 @@ def process(job):
     counts.clear()
     beyond.clear()
     err = None
+    t_start = time.time()
     cnt('kind_' + case['kind'])
     cnt('n_molecules=%d' % min(len(case['mols']), 5))
     try:
         if case['kind'] == 'history':
             run_history(cid, case)
+        elif case['kind'] in ('xsys', 'pdbtext', 'grotext'):
+            if case['kind'] == 'xsys':
+                recs, cts = c16_full.run_xsys(cid, case, TMP, HELPERS)
+            elif case['kind'] == 'pdbtext':
+                recs, cts = c16_full.run_pdbtext(cid, case, TMP, known)
+            else:
+                recs, cts = c16_full.run_grotext(cid, case, TMP)
+            records.extend(recs)
+            for k, v in cts.items():
+                cnt(k, v)
         else:
             run_pdb(cid, case)
             run_gro(cid, case)
     except Exception:
         err = ('harness:' + cid, tail(traceback.format_exc()))
-    return list(records), dict(counts), set(beyond), err
+    cnt('worker_ms_' + case['kind'], int((time.time() - t_start) * 1000))
+    return list(records), dict(counts), set(beyond), err, chk.worker_lines()
 
+
+# the full model: extra node attributes and keyword arguments, hand-made PDB and GRO texts (harness/c16_full.py)
+HELPERS = {'gro_variant': gro_variant, 'STR_ATTRS': STR_ATTRS, 'has_letter': has_letter, 'want_str': want_str,
+           'known': known}
+rngx = chk.rng('xsys')
+for i in range(2000 if chk.thorough else 250):
+    cases.append(('xsys-%d' % i, c16_full.extend_case(rngx, rand_case(rngx, 'plain'))))
+# must-pass (F-C16-4, repaired): points in the names of the FIRST atom line of a file written with velocities
+for i, (rn, an) in enumerate([('A.', 'C'), ('ZN2.', 'C1.A'), ('A.B.', 'C.'), ('ALA', 'C...')]):
+    fx = {'mols': [{'atoms': [atom(0, 1, atomname=an, resname=rn, resid=1, x=1500, y=-2250, z=1, element='C'),
+                              atom(1, 2, atomname='CA', resname='ALA', resid=2, x=3000, y=-4500, z=2, element='C')],
+                    'edges': [(0, 1)]}], 'conect': True, 'kind': 'xsys'}
+    for a in fx['mols'][0]['atoms']:
+        a.update(haspos=True, vel=(1000 + i, -2000, 3000), charge=0)
+    fx.update(omit_charges=True, nan_missing_pos=False, precision=7, title='points in the first names', via='string',
+              box=[('dec', 1500, 3), ('int', 2), ('dec', 3250, 3)], velmode='all', posmode='all', chmode='none')
+    cases.append(('xsys-fixed-points-%d' % i, fx))
+rngt = chk.rng('pdbtext')
+for i in range(4000 if chk.thorough else 500):
+    cases.append(('pdbtext-%d' % i, c16_full.rand_pdbtext(rngt)))
+rngg = chk.rng('grotext')
+for i in range(3000 if chk.thorough else 350):
+    cases.append(('grotext-%d' % i, c16_full.rand_grotext(rngg)))
 
 # histories: several files per process (GRO files of different precision, PDB files of different systems)
 rngh = chk.rng('histories')
@@ -675,6 +742,7 @@ for i in range(400 if chk.thorough else 60):
 import multiprocessing
 nproc = max(1, min(4 if chk.thorough else 8, (os.cpu_count() or 1)))
 order = sorted(range(len(cases)), key=lambda i: -sum(len(m['atoms']) for m in cases[i][1]['mols']))
+chk.extra['phase_s']['cases_generated'] = round(chk.elapsed(), 1)
 all_records, all_beyond = [], set()
 ctx = multiprocessing.get_context('fork')
 is_hist = [c[1]['kind'] == 'history' for c in cases]
@@ -683,7 +751,8 @@ is_hist = [c[1]['kind'] == 'history' for c in cases]
 with ctx.Pool(nproc) as pool, ctx.Pool(max(1, nproc // 2), maxtasksperchild=1) as hpool:
     handles = {i: (hpool if is_hist[i] else pool).apply_async(process, (cases[i],)) for i in order}
     results = [handles[i].get() for i in range(len(cases))]
-for recs, cts, bey, err in results:
+for recs, cts, bey, err, wlines in results:
+    chk.merge_worker_lines(wlines)     # line coverage of the anchored functions inside the forked workers
     all_records.extend(recs)
     all_beyond |= bey
     for k, v in cts.items():
@@ -692,12 +761,50 @@ for recs, cts, bey, err in results:
         chk.broken.append(err)
 records, beyond = all_records, all_beyond
 
+chk.extra['phase_s']['workers_done'] = round(chk.elapsed(), 1)
+# ----------------------------------------------------------------------------
+# TruncFormatter.format_field in general: random format specs x values (strings, integers, decimals on the grid
+# of the precision, which cross as integers) against C16.formatField; oracle in terms of python's format()
+# ----------------------------------------------------------------------------
+from vermouth.truncating_formatter import TruncFormatter
+_formatter = TruncFormatter()
+for cid, spec, val, prec in c16_fmt.stream(chk.rng('fmtfield'), 40000 if chk.thorough else 5000):
+    value = c16_fmt.py_value(val, prec)
+    status, res = c16_fmt.run_real(_formatter, value, spec)
+    impl = 'ok ' + enc(res) if status == 'ok' else 'err ' + res
+    errs = c16_fmt.oracle(value, spec, status, res)
+    base = spec[:-1] if spec.endswith('t') else spec
+    overflow = status == 'ok' and spec.endswith('t') and not base.endswith('t') and \
+        any(ch.isdigit() and ch != '0' for ch in base.split('.')[0]) and len(str(val[1])) >= len(res)
+    chk.count('fmt_' + ('ok_t' if spec.endswith('t') else 'ok') if status == 'ok' else 'fmt_' + res)
+    if overflow:
+        chk.count('fmt_value_at_or_beyond_width')
+    records.append((cid, line('fmtfield', spec, c16_fmt.enc_val(val)), impl, errs, overflow or status != 'ok', None,
+                    True))
+
 lines = [r[1] for r in records]
+chk.extra['phase_s']['real_code_done'] = round(chk.elapsed(), 1)
 models = chk.drv.ask(lines) if chk.lean_ok else [None] * len(lines)
+chk.extra['phase_s']['driver_done'] = round(chk.elapsed(), 1)
 for (cid, ln, impl, errs, nontriv, finding, use), mo in zip(records, models):
     if cid in beyond and mo == 'err unmodelled':
         mo = None     # reader behaviour outside the model (merging molecules): oracle-only case
+    if cid.endswith('x') and mo == 'err unmodelled':
+        mo = None     # e.g. a GRO file of fewer than three lines (StopIteration), a negative atom count
+        chk.count('full_model_unmodelled')
+    if cid.endswith('trunc') and mo == 'skip':
+        mo = None     # an atom the reader drops or stops at by design (element not found, altloc, '#'): no closed form
+        chk.count('trunc_closed_form_not_applicable')
+    elif cid.endswith('trunc'):
+        chk.count('trunc_closed_form_compared')
+    if cid.startswith('fmt-') and mo == 'err unmodelled':
+        mo = None     # python formatting outside the model (',' grouping, types b c o x n e g %, '_', 'z')
+        chk.count('fmt_model_unmodelled')
     chk.case(cid, ln, impl, mo, errs, nontriv, finding)
+if 'F-C16-3' not in known:
+    chk.notes.append('a CONECT record between atoms of two molecules makes PDBParser._do_single_conect merge them and put '
+                     'the bond on the wrong atom (index not shifted after disjoint_union); never written by vermouth within '
+                     'the five-digit numbering; counted as text_cross_conect_bond_on_wrong_atom (candidate finding F-C16-3)')
 if not any('F-C16-2' == k for k in known):
     chk.notes.append('atom names without an ASCII letter (and, for PDB, without element) make read_pdb/read_gro raise '
                      'ValueError in first_alpha; such systems are compared with the model only and counted as '
